@@ -11,10 +11,11 @@ from lib.util import digest
 from checks import scenarios as S
 
 PROP = "C05"
-LEVEL = "translation_validation"
-THEOREMS = {
+LEVEL = "proof"
+THEOREMS = {"Proofs.Props.C05": ["MsPack.Lzss.C05_lzss_roundtrip", "MsPack.Szdd.C05_szdd_roundtrip"],
             "Proofs.Props.Tables": ["MsPack.TableObligations.szdd_signatures"]}
-ASSUMPTIONS = ["LZSS / LZH / MSZIP payload round trips are not theorems yet: covered by model/implementation agreement and the plan oracle",
+ASSUMPTIONS = ["theorems: the LZSS round trip (every token list, every input buffer size, both ring start positions) and the SZDD file round trip (header values + payload) on the models of lzssd.c / szddd.c; "
+               "the QBasic header variant, KWAJ headers, and the KWAJ xor / LZH / MSZIP payload round trips are not theorems: covered by model/implementation agreement and the plan oracle",
                "models validated against the C by differential execution (7000+ cases incl. malformed, by the modeller's difftest; re-run here on fresh cases)"]
 RULE = ("szdd.plan, kwaj.plan: random plans from gen/vgen (LZSS token streams incl. matches into the pre-filled ring and across the ring wrap; KWAJ methods none/xor/LZSS/LZH/MSZIP; "
         "every combination of optional header fields; LZH length encodings 0-3 per tree); fixtures libmspack/test/test_files/kwajd/*.kwj; non-trivial = payload of at least one byte; distinct by file bytes")
